@@ -309,6 +309,9 @@ def run(ctx):
         for d in case["text"]:
             if d["kind"] == "code" and d["insns"][-1][0] == "call" and ctx.rng.random() < 0.3:
                 d["insns"][-1] = ["syscall"]
+            # ... and some jumps have an edge without a label
+            if d["kind"] == "code" and d["insns"][-1][0] == "jmp" and ctx.rng.random() < 0.3:
+                d["unlabelled"] = True
         if ctx.rng.random() < 0.4:
             code = [i for i, d in enumerate(case["text"]) if d["kind"] == "code"]
             case["entry"] = ctx.rng.choice(code)
